@@ -320,6 +320,32 @@ Theorem seq_oracle_sound slow c ops obs :
   seq_oracle slow c ops obs = true <-> seq_spec slow c ops obs.
 Proof. unfold seq_oracle, seq_spec. apply sobss_eqb_eq. Qed.
 
+Lemma wobss_eqb_eq a b : wobss_eqb a b = true <-> a = b.
+Proof.
+  revert b; induction a as [|x a IH]; intros [|y b]; cbn; split; intro H;
+    try reflexivity; try discriminate.
+  - apply andb_true_iff in H as [H1 H2]. apply wobs_eqb_eq in H1. apply IH in H2. congruence.
+  - injection H as -> ->. apply andb_true_iff; split; [apply wobs_eqb_eq | apply IH]; reflexivity.
+Qed.
+
+Lemma gobs_eqb_eq a b : gobs_eqb a b = true <-> a = b.
+Proof.
+  destruct a as [x w], b as [y w']. unfold gobs_eqb; cbn. rewrite andb_true_iff, Z.eqb_eq, wobss_eqb_eq.
+  split; [intros [-> ->]; reflexivity | intro H; injection H as -> ->; auto].
+Qed.
+
+Lemma gobss_eqb_eq a b : gobss_eqb a b = true <-> a = b.
+Proof.
+  revert b; induction a as [|x a IH]; intros [|y b]; cbn; split; intro H;
+    try reflexivity; try discriminate.
+  - apply andb_true_iff in H as [H1 H2]. apply gobs_eqb_eq in H1. apply IH in H2. congruence.
+  - injection H as -> ->. apply andb_true_iff; split; [apply gobs_eqb_eq | apply IH]; reflexivity.
+Qed.
+
+Theorem seqg_oracle_sound slow c steps obs :
+  seqg_oracle slow c steps obs = true <-> seqg_spec slow c steps obs.
+Proof. unfold seqg_oracle, seqg_spec. apply gobss_eqb_eq. Qed.
+
 Lemma counts_okb_sound tl : forall a k, counts_okb a k tl = true <-> counts_ok a k tl.
 Proof.
   induction tl as [|[x y] tl IH]; intros a k; cbn; [tauto|].
